@@ -1007,8 +1007,17 @@ class SymDomain(BaseDomain):
             elif isinstance(v, (list, tuple)):
                 vv = np.asarray(self.np_array(v), dtype=object)
             else:
-                vv = np.empty((), dtype=object)
-                vv[()] = v
+                if obj.kind == "quat" and not isinstance(v, SQ):
+                    v = SQ.lift(v) if SQ.lift(v) is not None else v
+                if obj.kind == "real" and isinstance(v, (SQ, SC)):
+                    raise ModelError("cannot store a quaternion/complex value into a real array")
+                cell = np.empty((), dtype=object)
+                cell[()] = v
+                try:
+                    base[idx] = cell[()] if not isinstance(base[idx], np.ndarray) else cell
+                except ValueError as e:
+                    raise ModelError(str(e))
+                return
             if obj.kind == "quat":
                 lift = np.frompyfunc(lambda x: x if isinstance(x, SQ) else SQ.lift(x), 1, 1)
                 vv = lift(vv)
